@@ -231,6 +231,20 @@ func c18Scripts() [][]string {
 		out = append(out, []string{first, ins9, "INSERT INTO s8 VALUES (10, 'r10'), (11, 'r11')", "SELECT * FROM s8 WHERE a > 3 ORDER BY a DESC", "DELETE FROM s8 WHERE a = 9", "UPDATE s8 SET c = 'z'"})
 		out = append(out, []string{first, first, ins9, "SELECT count(*) FROM s8"})
 	}
+	// one long list at real page capacities: a table grown through the first split of its root interior page
+	// (about 1165 rows), then single statements of every kind on it
+	deep := []string{"CREATE TABLE big (a int, c varchar(255))"}
+	for base := 1; base <= 1200; base += 50 {
+		var rows []string
+		for k := base; k < base+50; k++ {
+			rows = append(rows, fmt.Sprintf("(%d, 'r%d')", k, k))
+		}
+		deep = append(deep, "INSERT INTO big VALUES "+strings.Join(rows, ", "))
+	}
+	deep = append(deep, "INSERT INTO big VALUES (1201, 'r1201')", "DELETE FROM big WHERE a = 1199", "DELETE FROM big WHERE a = 600", "UPDATE big SET c = 'z' WHERE a = 1180",
+		"UPDATE big SET c = 'z' WHERE a = 3", "INSERT INTO big VALUES (1202, 'r1202'), (1203, 'r1203')", "SELECT count(*) FROM big", "SELECT * FROM big WHERE a > 1150 ORDER BY a DESC LIMIT 5",
+		"DELETE FROM big WHERE a > 1100", "INSERT INTO big VALUES (1204, 'r1204')", "SELECT count(*), avg(a) FROM big")
+	out = append(out, deep)
 	return out
 }
 
@@ -394,7 +408,7 @@ func runC18(env *lib.Env, rep *lib.Report) {
 	}
 	// statement lists (each on a fresh database, session state "selected")
 	scripts := c18Scripts()
-	rep.Bounds["statement lists"] = fmt.Sprintf("%d lists of 4-6 statements on a table one row short of its first split", len(scripts))
+	rep.Bounds["statement lists"] = fmt.Sprintf("%d lists of 4-6 statements on a table one row short of its first split; one list of %d statements that grows a table to 1200 rows at real page capacities (through the first split of its root interior page) and then runs statements of every kind on it", len(scripts)-1, len(scripts[len(scripts)-1]))
 	for si, script := range scripts {
 		if si%env.NShards != env.Shard {
 			continue
@@ -406,6 +420,9 @@ func runC18(env *lib.Env, rep *lib.Report) {
 		recursiveReadLocks = storage.VerifWatchReadLocks()
 		for qi, q := range script {
 			label := fmt.Sprintf("%s   [statement %d of the list %q]", q, qi+1, script[:qi])
+			if len(script) > 8 {
+				label = fmt.Sprintf("%s   [statement %d of the %d-statement list that grows table big]", q, qi+1, len(script))
+			}
 			scriptSoFar = script[:qi]
 			prog.Set("statement list", label)
 			storage.VerifSetFuel(worldFuel)
